@@ -98,14 +98,17 @@ add("C20", "model_checking",
 add("C12", "model_checking",
     "All ordered pairs of a finite type universe (closure of every type constructor over a hierarchy with chain, diamond, ABC, protocol, "
     "builtins; depth 1 quick, 2 thorough; raw annotations and normal forms) are compared with typeorder in both directions: reflexivity, "
-    "mirror symmetry, no exception, and the statement's named clauses on the sub-families they name (all class triples for transitivity).",
+    "mirror symmetry, no exception, and the statement's named clauses on the sub-families they name (all class triples for transitivity); "
+    "plus all histories of 1-2 relation-changing events (virtual-subclass registration, a class starting to satisfy a runtime protocol) "
+    "with no / one / all comparisons before them: after every event the order must equal issubclass at that moment.",
     "Trusted: nothing beyond the statement is demanded; annotations ovld refuses to normalise are left out.",
     "exhaustive enumeration of all pairs (triples on the class fragment) of a finite type universe against algebraic laws",
     "DESIGN.md section 5 C12")
 
 add("C13", "model_checking",
     "Every static type of a finite universe x every class of a closed world: subclasscheck and dispatch-level applicability on the real "
-    "code must equal membership in the type's denotation computed from the documented meaning; Deferred on a not-yet-imported module; "
+    "code must equal membership in the type's denotation computed from the documented meaning; every ordered pair of types as two methods "
+    "of one function (the method that runs must be one whose denotation contains the class); Deferred on a not-yet-imported module; "
     "reflexivity, issubclass-equivalence, transitivity (all triples) and covariance on the class + generic fragment.",
     "Trusted: the denotation rules (documented meaning of each constructor).",
     "exhaustive enumeration of a finite type universe x closed world of classes against a denotational oracle; all pairs / triples for the laws",
@@ -164,7 +167,8 @@ add("C18", "fault_enumeration",
 
 add("C19", "model_checking",
     "Two real threads on one shared function are serialised by a baton at every executed source line of the library's build / dispatch / "
-    "resolution code and ALL schedules with at most 1 (thorough: 2 on the cache-miss scenarios) preemption are run: racing first calls "
+    "resolution code and ALL schedules with at most 1 (thorough: 2 on the cache-miss scenarios) preemption are run, plus, on racing first "
+    "calls, one further preemption located before the build lock is taken (bootstrap entry point, ensure_compiled, prologue of compile): racing first calls "
     "(lazy build) through three entry points, racing cache misses for equal / different / position-sharing tuples, racing call_next "
     "chains, racing dependent dispatchers; each thread must get its sequential result, no deadlock, and the function must be correct "
     "for every probe afterwards.",
